@@ -21,3 +21,7 @@ RS8_ORDER_FREE = {
         "the loop body only calls add_constraint(c) on each member; RandSet.add_constraint inserts into per-set containers, so the "
         "visiting order of the members cannot be observed (and nothing ever adds to this set today)",
 }
+
+# RN3: additional value writers on the randomize path (function -> reason)
+RN3_WRITERS = {
+}
